@@ -257,7 +257,7 @@ def f_atomic_take(P, E):
         return r
     acqs, held, stmt_held = _inner_guard_acqs(b)
     r.instance((b.nid, "acquisitions"), True, "inner acquisitions: %s" % {k: v["mode"] for k, v in acqs.items()})
-    if len(acqs) != 1 or list(acqs.values())[0]["mode"] != "W":
+    if len(acqs) != 1 or list(acqs.values())[0]["mode"] not in ("W", "M"):
         r.violate((b.nid, "not a single write acquisition"),
                   "the take is not done under exactly one write guard of `inner` (found %s): "
                   "two callers can both observe the callback present and both invoke it"
@@ -462,7 +462,7 @@ def s_remove_and_test(P, E):
         r.violate((b.nid, "remove and emptiness test under different guards"),
                   "two inputs completing concurrently can both (or neither) observe `last one out`", body=b)
     for a in ua.values():
-        if a["mode"] != "W":
+        if a["mode"] not in ("W", "M"):
             r.violate((b.nid, "remove under read guard"), "unscribers mutated under a non-write guard", body=b)
     for c in b.calls:
         if _subscriber_call(b, c, ("obs_complete",)) or atom(c) == "finalize":
@@ -608,7 +608,7 @@ def s_fresh_serial(P, E):
     ins = [c for c in b.calls if c.path == "std::collections::HashMap::insert"
            and any(path[:1] == ("unscribers",) for (_, _, path) in b.operand_prov(c.args[0]))]
     r.instance((b.nid, "serial"), True, "serial acquisitions %s inserts %s" % ({k: v["mode"] for k, v in sa.items()}, [c.bb for c in ins]))
-    if len(sa) != 1 or list(sa.values())[0]["mode"] != "W":
+    if len(sa) != 1 or list(sa.values())[0]["mode"] not in ("W", "M"):
         r.violate((b.nid, "serial not drawn under one write guard"),
                   "the upstream key is not produced by one write-locked read-and-increment of the serial counter (%d "
                   "acquisitions): keys of live upstreams can collide, an entry is overwritten and `last one out` fires early"
@@ -655,4 +655,134 @@ def sub_live_gate(P, E):
                       "inner_subscribe runs the source without checking that the observer is still subscribed: a combinator "
                       "whose earlier input already ended the subscription (error(..).merge(&[late])) subscribes the later "
                       "inputs anyway and nothing ever tears them down", body=b, line=c.line)
+    return r
+
+
+# --------------------------------------------------------------------------- StreamController wiring shapes
+
+def s_wiring(P, E):
+    """The three wiring facts every teardown argument rests on:
+    (new) StreamController::new installs `finalize` of the new controller as the subscriber's
+          teardown (so unsubscribing downstream tears down upstream);
+    (register) new_observer stores, under the key it returns handlers for, an action that
+          unsubscribes exactly the observer it returns;
+    (abort) upstream_abort_observe removes the entry and runs it."""
+    r = RuleResult("S-wiring", "StreamController::new wires finalize as the subscriber's teardown; new_observer registers an "
+                               "action unsubscribing the returned observer; upstream_abort_observe removes and runs the entry")
+    nb, ob, ab = _sctl(P, "new"), _sctl(P, "new_observer"), _sctl(P, "upstream_abort_observe")
+    for nm, b in (("new", nb), ("new_observer", ob), ("upstream_abort_observe", ab)):
+        if b is None:
+            r.error("anchor missing: StreamController::%s" % nm)
+    if r.errors:
+        return r
+    # (new)
+    sets = [c for c in nb.calls if atom(c) == "set_on_unsubscribe"]
+    ok = False
+    for c in sets:
+        recv_ok = all(rk == "param" and rd == 1 for (rk, rd, _) in nb.operand_prov(c.args[0]))
+        cl = c.arg_closure(1)
+        cb = P.bodies.get(cl) if cl else None
+        fin = cb is not None and any(atom(x) == "finalize" for x in cb.calls) and \
+            Effects.path_avoiding(cb, cb.returns, [x.bb for x in cb.calls if atom(x) == "finalize"]) is None
+        if recv_ok and fin and Effects.path_avoiding(nb, nb.returns, [c.bb]) is None:
+            ok = True
+    r.instance((nb.nid, "teardown wiring"), True, "set_on_unsubscribe sites %s" % [c.bb for c in sets])
+    if not ok:
+        r.violate((nb.nid, "finalize not installed as the subscriber's teardown"),
+                  "StreamController::new does not (on every path) install a teardown on its subscriber that runs finalize(): "
+                  "unsubscribing downstream no longer tears down upstream", body=nb)
+    # (register)
+    ins = [c for c in ob.calls if c.path == "std::collections::HashMap::insert"
+           and any(path[:1] == ("unscribers",) for (_, _, path) in ob.operand_prov(c.args[0]))]
+    news = [c for c in ob.calls if atom(c) == "observer_new"]
+    r.instance((ob.nid, "registration"), True, "inserts %s Observer::new %s" % ([c.bb for c in ins], [c.bb for c in news]))
+    if len(news) != 1 or not ins:
+        r.violate((ob.nid, "upstream not registered"), "new_observer does not register the observer it creates", body=ob)
+    else:
+        obs_root = ("ret", news[0].bb)
+        good = False
+        for c in ins:
+            for t in ob.operand_prov(c.args[2]):
+                if t[0] == "ret":
+                    k = ob.call_at(t[1])
+                    if k is not None and atom(k) == "fw_new":
+                        cl = k.arg_closure(0)
+                        cb = P.bodies.get(cl) if cl else None
+                        if cb is not None:
+                            us = [x for x in cb.calls if atom(x) == "obs_unsubscribe"]
+                            for x in us:
+                                og = set()
+                                for tt in cb.operand_prov(x.args[0]):
+                                    og |= P.global_cell(cb, tt)
+                                if og and all(g[0] == ob.id and (g[1], g[2]) == obs_root for g in og) and \
+                                        Effects.path_avoiding(cb, cb.returns, [x.bb]) is None:
+                                    good = True
+            if Effects.path_avoiding(ob, ob.returns, [c.bb]) is not None:
+                good = False
+        # the returned value is that observer
+        ret_ok = all(t[0] == "ret" and t[1] == news[0].bb for t in ob.local_prov(0))
+        if not good or not ret_ok:
+            r.violate((ob.nid, "entry does not unsubscribe the returned observer"),
+                      "the action registered by new_observer does not unsubscribe exactly the observer it hands out (or is not "
+                      "registered on every path): finalize() cannot stop that upstream", body=ob)
+    # (abort)
+    rem = [c for c in ab.calls if c.path == "std::collections::HashMap::remove"
+           and any(path[:1] == ("unscribers",) for (_, _, path) in ab.operand_prov(c.args[0]))]
+    runs = [c for c in ab.calls if atom(c) == "fw_call"]
+    r.instance((ab.nid, "abort"), True, "remove %s run %s" % ([c.bb for c in rem], [c.bb for c in runs]))
+    if not rem:
+        r.violate((ab.nid, "entry not removed"), "upstream_abort_observe does not remove the entry: it would be run again by finalize "
+                  "and keeps counting as a live input", body=ab)
+    elif not all(rk == "param" and rd == 2 for (rk, rd, _) in ab.operand_prov(rem[0].args[1])):
+        r.violate((ab.nid, "removes another key"), "upstream_abort_observe removes a key that is not its argument", body=ab)
+    if not runs:
+        r.violate((ab.nid, "entry not run"), "upstream_abort_observe does not run the removed entry: the upstream is not unsubscribed", body=ab)
+    else:
+        from absint import SlotInterp  # presence of the removed entry decides whether it is run
+        # structural: the run call's receiver derives from the removed value, and is reached on the Some edge only
+        for c in runs:
+            from_removed = any("unscribers" in g[3] and "[]" in g[3] for t in ab.operand_prov(c.args[0]) for g in P.global_cell(ab, t))
+            if not from_removed:
+                r.violate((ab.nid, "runs something else"), "upstream_abort_observe runs an action that is not the removed entry", body=ab, line=c.line)
+    return r
+
+
+def d_compose(P, E):
+    """Derived operators are compositions with fixed parameters (checked only where the composition
+    is actually used): first = take(1), last = take_last(1), all = filter(!p).take(1),
+    AsyncSubject = subject.take_last(1)."""
+    r = RuleResult("D-compose", "derived operators compose the primitive with the defining constant")
+    table = [
+        ("operators::first::First::new", "operators::take::Take::new", 0, 1),
+        ("operators::last::Last::new", "operators::take_last::TakeLast::new", 0, 1),
+        ("subjects::async_subject::AsyncSubject::observable", "operators::take_last::<impl observable::Observable>::take_last", 1, 1),
+    ]
+    for (host, callee, argi, want) in table:
+        hb = P.body(host)
+        if hb is None:
+            continue
+        bodies = [hb] + P.descendants(hb)
+        for b in bodies:
+            for c in b.calls:
+                if c.path == callee or (callee.endswith("::take_last") and c.name == "take_last" and c.local) \
+                        or (callee.endswith("Take::new") and c.path.endswith("Take::new")) \
+                        or (callee.endswith("TakeLast::new") and c.path.endswith("TakeLast::new")):
+                    a = c.args[argi]
+                    val = a.get("int") if a["k"] == "const" else None
+                    r.instance((host, c.path), True, "argument %s" % (val if val is not None else "non-constant"))
+                    if val != want:
+                        r.violate((host, "composed with %s instead of %d" % (val, want)),
+                                  "%s builds %s(%s); its definition is %s(%d)" % (host, c.path.split("::")[-2] + "::" + c.path.split("::")[-1], val, c.path.split("::")[-1], want),
+                                  body=b, line=c.line)
+    # all = filter(!p).take(1): inside All::execute the chain ends in take(const 1)
+    ab = P.body("operators::all::All::execute")
+    if ab is not None:
+        for b in [ab] + P.descendants(ab):
+            for c in b.calls:
+                if c.local and c.name == "take" and len(c.args) > 1:
+                    a = c.args[1]
+                    val = a.get("int") if a["k"] == "const" else None
+                    r.instance(("operators::all::All::execute", "take"), True, "argument %s" % val)
+                    if val != 1:
+                        r.violate(("operators::all::All::execute", "take(%s) instead of take(1)" % val), "all() must stop at the first counter-example", body=b, line=c.line)
     return r
